@@ -344,6 +344,10 @@ def decode_payload(raw):
     return out
 
 
+# the model distinguishes refusals the implementation raises with one type: merged here
+MODEL_ERR_CLASS = {'err truncated': 'err PARRECError', 'err no_volume': 'err PARRECError', 'err slice_range': 'err ValueError'}
+
+
 def impl_load(text, rec, strict, permit, fp):
     """observables of one load through the public API"""
     from nibabel.parrec import PARRECImage, PARRECError
@@ -355,12 +359,11 @@ def impl_load(text, rec, strict, permit, fp):
             warnings.simplefilter('ignore')
             img = PARRECImage.from_file_map(fm, mmap=False, permit_truncated=permit,
                                             scaling='fp' if fp else 'dv', strict_sort=strict)
-    except PARRECError as e:
-        o['status'] = 'err truncated' if ('Header inconsistency' in str(e) or 'partial volume' in str(e)) \
-            else 'err no_volume' if 'No complete volume' in str(e) else 'err other:' + str(e)[:80]
-        return o
-    except ValueError as e:
-        o['status'] = 'err slice_range' if 'Slice numbers outside' in str(e) else 'err other:' + str(e)[:80]
+    except (PARRECError, ValueError) as e:
+        # refusals are classified by exception TYPE only (messages may be reworded): PARRECError = truncated
+        # recording not permitted / no complete volume; ValueError = slice number out of range
+        o['status'] = 'err PARRECError' if isinstance(e, PARRECError) else 'err ValueError'
+        o['detail'] = f'{type(e).__name__}: {e}'[:120]
         return o
     hdr = img.header
     with warnings.catch_warnings():
@@ -756,9 +759,15 @@ def run(chk: Check):
         mout = mod.get(f'c{ci}', '<missing>')
         dis = None
         if o['status'] != 'ok':
-            chk.refusal(o['status'].split()[1] if o['status'].startswith('err ') else o['status'])
-            if mout != o['status']:
-                dis = ('refusal', mout[:200], o['status'])
+            # what kind of refusal this is comes from the generated case, not from the message text
+            have = {}
+            for i in info['present']:
+                have.setdefault(f.tv[i], set()).add(f.slices[i])
+            nfull = sum(1 for sl_ in have.values() if sl_ == set(range(1, f.smax + 1)))
+            chk.refusal(o['status'].split()[1] + (':no complete volume' if nfull == 0 else ':truncated, not permitted'
+                                                  if not case['permit'] else ':other'))
+            if MODEL_ERR_CLASS.get(mout, mout) != o['status']:
+                dis = ('refusal', mout[:200], o['status'] + ' ' + o.get('detail', ''))
         else:
             line, nvol_shape = impl_canon(o, mi)
             mm = mout
